@@ -58,6 +58,9 @@ var properties = map[string]propDef{}
 func propertyIDs() []string {
 	var ids []string
 	for k := range properties {
+		if len(k) < 3 || k[0] != 'C' {
+			continue
+		}
 		ids = append(ids, k)
 	}
 	sort.Strings(ids)
